@@ -98,6 +98,16 @@ CLAIMED = {
          "Prometheus counters are modelled as commutative increments"),
    technique="Lean 4 theorem over regenerated control-flow facts + end-to-end differential against the metric registry",
    design='7/C16'),
+ 'C17': dict(
+   text=("Proof (Lean 4): over a transition system of the cancel watcher (program order REGENERATED from Serve), the accept loop (error "
+         "mapping regenerated) and the HTTP/1.1 server, for EVERY interleaving of cancel (early, repeated), watcher steps, exchange "
+         "completions and unrelated connection events: when the accept loop sees the closed listener the shutdown flag is set "
+         "(Serve returns ErrServerClosed) and no HTTP/1.1 exchange is in flight (serve_returns_ErrServerClosed by invariant), and "
+         "after drain four watcher steps close the listener (returns_after_drain); validated by cancelling a real workload"),
+   note=("PARTIAL: net/http.Server.Shutdown is an assumed contract; real scheduling and the OS are sampled. Accept errors other than "
+         "the closed listener are outside the model (D16)"),
+   technique="Lean 4 invariant proof over all interleavings + regenerated program-order facts + end-to-end cancellation scenarios",
+   design='7/C17'),
 }
 ALL = [f'C{i:02d}' for i in range(1, 21)]
 
